@@ -560,9 +560,7 @@ static void inverse_core(Rec& r, vt::Rng& g, const Ell& E, int cls, double lat1,
   r.i("kq", kq(max(kappa(a, f, lat1), kappa(a, f, lat2)), scale, asc));
   // input classes of known findings (computed from the inputs only)
   { double l12 = fabs(double(remainderl((LD)lon2 - lon1, 360)));
-    if (f <= -0.2 && max(fabs(lat1), fabs(lat2)) < 1e-3 && max(fabs(lat1), fabs(lat2)) > 0 && l12 >= 90) r.str("kf", "exact-inverse-prolate-nearly-equatorial");
-    // both points within 1e-4 deg of a pole of a needle b/a >= 64 (radius of curvature at the tip a/64)
-    else if (E.fi == 13 && E.bp >= 64 * E.bq && 90 - fabs(lat1) < 1e-4 && 90 - fabs(lat2) < 1e-4) r.str("kf", "exact-inverse-needle-tip"); }
+    if (f <= -0.2 && max(fabs(lat1), fabs(lat2)) < 1e-3 && max(fabs(lat1), fabs(lat2)) > 0 && l12 >= 90) r.str("kf", "exact-inverse-prolate-nearly-equatorial"); }
   r.i("mx", vt::q1(ceill(max((LD)1, max(fabsl((LD)M12[1]), fabsl((LD)M21[1])))), 1.0L));      // |m12| in metres (WGS84 size): conditioning of the azimuths
   r.b("eqaz", azi1[1] == azi2[1] && azi1[0] == azi2[0]).b("meraz", fabs(azi1[1]) == 0 || fabs(azi1[1]) == 180);
   // I1 closure through the direct problem, each solver by itself: by distance (clo, clt) and by the returned arc length (cla)
